@@ -57,48 +57,82 @@ Fixpoint zlist_eqb (a b : list Z) : bool :=
   | _, _ => false
   end.
 
-(* the request of a srv case: one accepted request whose decoded path is given in the meta *)
+(* one connection's log against the tree: the request is accepted, its decoded path is [path]
+   and [pass] tells whether it carries the X-Pass header *)
+Definition chk_conn (root : option fnode) (rt : rxtab) (path : bytes) (pass : bool) (l : list lev) : bool :=
+  let w := wire_of l in
+  let status := match parse_wire w with Some (code, _, _, _) => code | None => -1 end in
+  negb (existsb is_bad l) && Nat.eqb (count is_headers l) 1 &&
+  match root with
+  | None => (status =? 500) && zlist_eqb (mw_notes l) [] && Nat.eqb (List.length (proc_notes l)) 0
+  | Some fn =>
+      let (ids, t) := outcome (rx_lookup rt) (resolve pass fn) (skipn 1 path) in
+      zlist_eqb (mw_notes l) (map fst ids) &&
+      match t with
+      | TUnknown => true
+      | TRefused _ => (status =? 403) && Nat.eqb (List.length (proc_notes l)) 0
+      | TRedirect loc =>
+          Nat.eqb (List.length (proc_notes l)) 0 &&
+          match parse_wire w with
+          | Some (code, _, hs, body) =>
+              (code =? 302) && beq body [] &&
+              match header_value (B "location") hs with Some v => beq v loc | None => false end &&
+              (* no header line other than those the library's redirect sets *)
+              forallb (fun nm => beq nm (B "location") || beq nm (B "content-length")) (header_names hs) &&
+              Nat.eqb (List.length hs) 2
+          | None => false
+          end
+      | TProcess pk pid p =>
+          if pk =? 0 then (status =? 404) && Nat.eqb (List.length (proc_notes l)) 0
+          else
+            match proc_notes l with
+            | [(id, p')] => (id =? pid) && beq p' p &&
+                            (if pk =? 1 then (status =? 200)
+                             else if pk =? 2 then beq w []
+                             else (status =? 500))
+            | _ => false
+            end
+      end
+  end.
+
 Definition chk_route (c o : value) : bool :=
   match c with
-  | VL [tree; VL ops0; VL [VB ver; VL utab; VL rtab]; VL [VI 5; VB path]] =>
+  | VL [tree; VL ops0; VL [VB ver; VL utab; VL rtab]; VL (VI 5 :: VB path :: rest)] =>
       match dec_tree tree, dec_rxtab rtab with
       | Some root, Some rt =>
-          let l := dec_log o in
-          let w := wire_of l in
-          let status := match parse_wire w with Some (code, _, _, _) => code | None => -1 end in
-          negb (existsb is_bad l) && Nat.eqb (count is_headers l) 1 &&
-          match root with
-          | None => (status =? 500) && zlist_eqb (mw_notes l) [] && Nat.eqb (List.length (proc_notes l)) 0
-          | Some n =>
-              let (ids, t) := outcome (rx_lookup rt) n (skipn 1 path) in
-              zlist_eqb (mw_notes l) (map fst ids) &&
-              match t with
-              | TUnknown => true
-              | TRefused _ => (status =? 403) && Nat.eqb (List.length (proc_notes l)) 0
-              | TRedirect loc =>
-                  Nat.eqb (List.length (proc_notes l)) 0 &&
-                  match parse_wire w with
-                  | Some (code, _, hs, body) =>
-                      (code =? 302) && beq body [] &&
-                      match header_value (B "location") hs with Some v => beq v loc | None => false end &&
-                      (* no header line other than those the library's redirect sets *)
-                      forallb (fun nm => beq nm (B "location") || beq nm (B "content-length")) (header_names hs) &&
-                      Nat.eqb (List.length hs) 2
-                  | None => false
-                  end
-              | TProcess pk pid p =>
-                  if pk =? 0 then (status =? 404) && Nat.eqb (List.length (proc_notes l)) 0
-                  else
-                    match proc_notes l with
-                    | [(id, p')] => (id =? pid) && beq p' p &&
-                                    (if pk =? 1 then (status =? 200)
-                                     else if pk =? 2 then beq w []
-                                     else (status =? 500))
-                    | _ => false
-                    end
-              end
-          end
+          chk_conn root rt path (match rest with [VI p] => as_bool p | _ => false end) (dec_log o)
       | _, _ => true
       end
   | _ => true
+  end.
+
+(* split a multi-connection log at its (21 i) markers *)
+Fixpoint split_conns (l : list value) (cur : list value) (acc : list (list value)) : list (list value) :=
+  match l with
+  | [] => rev (rev cur :: acc)
+  | VL [VI 21; VI _] :: l' => split_conns l' [] (rev cur :: acc)
+  | v :: l' => split_conns l' (v :: cur) acc
+  end.
+
+Fixpoint chk_conns (root : option fnode) (rt : rxtab) (metas : list value) (logs : list (list value)) : bool :=
+  match metas, logs with
+  | [], [] => true
+  | VL [VB path; VI pass] :: ms, lg :: ls =>
+      chk_conn root rt path (as_bool pass) (map dec_lev lg) && chk_conns root rt ms ls
+  | _, _ => false
+  end.
+
+Definition chk_route_multi (c o : value) : bool :=
+  match c, o with
+  | VL [tree; VL conns; VL [VB ver; VL utab; VL rtab]; VL [VI 6; VL metas]], VL lg =>
+      match dec_tree tree, dec_rxtab rtab with
+      | Some root, Some rt =>
+          match split_conns lg [] [] with
+          | _ :: logs => chk_conns root rt metas logs      (* the piece before the first marker is empty *)
+          | [] => false
+          end
+      | _, _ => true
+      end
+  | VL [_; _; _; VL [VI 6; _]], _ => false
+  | _, _ => true
   end.
